@@ -73,6 +73,20 @@ Section MergeBcast.
   Hypothesis Hc14 : c14 p = false.
   Notation o := (merge_op n).
 
+  (** taking the talkback of member [j'] out of its cell does not change which of the later
+      members the loop will reach: the members reached are those whose slot was set when the
+      broadcast started *)
+  Lemma filter_clrif u s j' m :
+    filter (mg_tbs (Inv_merge.clrif u s j')) (seq (S j') m) = filter (mg_tbs s) (seq (S j') m).
+  Proof.
+    apply filter_ext_in. intros a Ha. apply in_seq in Ha. unfold Inv_merge.clrif.
+    destruct (umsg_is_term u); [|reflexivity]. cbn [Inv_merge.clr mg_tbs].
+    apply upd_other. lia.
+  Qed.
+
+  Lemma ended_clrif u s j' : mg_ended (Inv_merge.clrif u s j') = mg_ended s.
+  Proof. unfold Inv_merge.clrif. destruct (umsg_is_term u); reflexivity. Qed.
+
   (** the broadcast loop (src/merge.rs:121), resumed at slot [j] with passive members *)
   Lemma mg_drain_bcast u : forall d j (c1 : cfg o) i0,
     n - j <= d ->
@@ -98,7 +112,8 @@ Section MergeBcast.
       + intros Hre. apply reachS; [exact Hre|]. eapply enabled_ret_cup; eassumption.
     - assert (Hr : resume o (MgBcast u j) (cst c1) =
                    match find_from (mg_tbs (cst c1)) j (n - j) with
-                   | Some j' => (cst c1, [], ACall (CUp j' u) (MgBcast u (S j')))
+                   | Some j' => (Inv_merge.clrif u (cst c1) j', [],
+                                 ACall (CUp j' u) (MgBcast u (S j')))
                    | None => (cst c1, [], ARet)
                    end).
       { cbn. unfold mg_bcast. rewrite Hend. reflexivity. }
@@ -108,12 +123,12 @@ Section MergeBcast.
         destruct (step_ret p c1 Hdead Hst Hr) as (Hc & Hs & Hm & Hdd).
         pose proof (step_ret_trace p c1 Hdead Hst Hr) as Htr.
         destruct (IH (S j') (step p c1 MRet) j') as (fuel & evs & H1 & H2 & H3 & H4);
-          [lia|exact Hdd|exact Hs|rewrite Hc; exact Hend|].
+          [lia|exact Hdd|exact Hs|rewrite Hc, ended_clrif; exact Hend|].
         exists (S fuel), (ERet :: ECall (CUp j' u) :: evs).
         rewrite (@drain_S p o fuel c1 _ _ _ Hst).
         split; [exact H1|]. split; [|split].
         * rewrite H2, Htr. cbn. rewrite <- app_assoc. reflexivity.
-        * cbn [calls_of]. rewrite H3, Hc, (filter_find_some _ _ _ Ef). cbn [map].
+        * cbn [calls_of]. rewrite H3, Hc, filter_clrif, (filter_find_some _ _ _ Ef). cbn [map].
           replace (j + (n - j) - S j') with (n - S j') by lia. reflexivity.
         * intros Hre. apply H4. now apply reachS.
       + destruct (step_ret p c1 Hdead Hst Hr) as (Hc & Hs & Hm & Hdd).
@@ -160,13 +175,15 @@ Section MergeBcast.
       pose proof (step_in_trace p c (IUp 0 u) Hdead Hdel Hh) as Htr.
       rewrite Hst in Hs.
       assert (Hend' : negb (umsg_is_term u) && mg_ended (cst (step p c (MIn (IUp 0 u)))) = false).
-      { rewrite Hc. unfold Inv_merge.endif. destruct u; cbn; rewrite ?Hend; reflexivity. }
+      { rewrite Hc, ended_clrif. unfold Inv_merge.endif.
+        destruct u; cbn; rewrite ?Hend; reflexivity. }
       destruct (@mg_drain_bcast u (n - S j') (S j') (step p c (MIn (IUp 0 u))) j'
                   (le_n _) Hdd Hs Hend') as (fuel & evs & H1 & H2 & H3 & H4).
       exists fuel. cbv zeta. split; [exact H1|].
       exists (EIn (IUp 0 u) :: ECall (CUp j' u) :: evs). split; [|split].
       + rewrite H2, Htr. cbn. rewrite <- app_assoc. reflexivity.
-      + cbn [calls_of]. rewrite H3, Hc, Hfil, (filter_find_some _ _ _ Ef). cbn [map].
+      + cbn [calls_of]. rewrite H3, Hc, filter_clrif, Hfil, (filter_find_some _ _ _ Ef).
+        cbn [map].
         replace (mg_tbs (Inv_merge.endif u (cst c))) with (mg_tbs (cst c))
           by (unfold Inv_merge.endif; destruct (umsg_is_term u); reflexivity).
         replace (0 + n - S j') with (n - S j') by lia. reflexivity.
